@@ -29,6 +29,9 @@ class _Reg(object):
     def __init__(self):
         self.pairs = {}      # term id -> (term, c, s)
         self.order = []
+        self.rho = {}        # atan2 result term id -> its rho
+        self.contract = {}   # atan2 result term id -> the contract conjunct as it stands in the path condition
+        self.calls = []      # ("atan2", y, x, theta) / ("cos"|"sin", angle term, value term) in call order
 
 
 def _reg():
@@ -56,6 +59,7 @@ def atan2(y, x):
         ctx.nonlinear = True
     ty, tx = to_real(y), to_real(x)
     th = z3.Real(ctx.fresh_name("atan2"))
+    _reg().calls.append(("atan2", ty, tx, th))
     if LIGHT[0]:
         ctx.assume_expr(z3.And(th > -PI, th <= PI,
                                (th == 0) == z3.And(ty == 0, tx >= 0),
@@ -70,13 +74,16 @@ def atan2(y, x):
     c = z3.Real(ctx.fresh_name("cos"))
     s = z3.Real(ctx.fresh_name("sin"))
     rho = z3.Real(ctx.fresh_name("rho"))
-    ctx.assume_expr(z3.And(
+    contract = z3.And(
         c * c + s * s == 1, rho > 0, tx == rho * c, ty == rho * s,
         th > -PI, th <= PI,
         (th > 0) == z3.Or(s > 0, z3.And(s == 0, c < 0)),
         (th < 0) == (s < 0),
-        (th == PI) == z3.And(s == 0, c < 0)))
+        (th == PI) == z3.And(s == 0, c < 0))
+    ctx.assume_expr(contract)
     register(th, c, s)
+    _reg().rho[th.get_id()] = rho
+    _reg().contract[th.get_id()] = ctx.pc[-1]
     return SymReal(th)
 
 
@@ -110,8 +117,20 @@ def _pair(a):
 
 
 def cos(a):
-    return SymReal(_pair(a)[0])
+    c = _pair(a)[0]
+    _reg().calls.append(("cos", z3.simplify(to_real(a)), c))
+    return SymReal(c)
 
 
 def sin(a):
-    return SymReal(_pair(a)[1])
+    s = _pair(a)[1]
+    _reg().calls.append(("sin", z3.simplify(to_real(a)), s))
+    return SymReal(s)
+
+
+def chord_fact(a, b):
+    """True fact about real sine/cosine for two registered angle terms: chord <= arc."""
+    pa, pb = lookup(z3.simplify(a)), lookup(z3.simplify(b))
+    if pa is None or pb is None:
+        return None
+    return (pa[0] - pb[0]) * (pa[0] - pb[0]) + (pa[1] - pb[1]) * (pa[1] - pb[1]) <= (a - b) * (a - b)
